@@ -1,0 +1,37 @@
+//go:build verif
+
+package hsrv
+
+/*
+ * verif_on.go
+ * Verification seam, for deterministic simulation (-tags verif)
+ */
+
+import (
+	"fmt"
+	"net"
+	"reflect"
+)
+
+// VerifSwapNetListener replaces the net.Listener underneath s's TLS listener
+// with the one returned by f, which is passed the current one.  The TLS
+// configuration, certificate and fingerprint are left as they are.
+func VerifSwapNetListener(s *Server, f func(net.Listener) net.Listener) error {
+	v := reflect.ValueOf(s.l.Listener)
+	if reflect.Pointer != v.Kind() || reflect.Struct != v.Elem().Kind() {
+		return fmt.Errorf("unexpected TLS listener type %T", s.l.Listener)
+	}
+	fv := v.Elem().FieldByName("Listener")
+	if !fv.IsValid() || !fv.CanSet() {
+		return fmt.Errorf("no settable Listener in %T", s.l.Listener)
+	}
+	inner, ok := fv.Interface().(net.Listener)
+	if !ok {
+		return fmt.Errorf("inner listener of %T not a net.Listener", s.l.Listener)
+	}
+	fv.Set(reflect.ValueOf(f(inner)))
+	return nil
+}
+
+// VerifFingerprint returns the fingerprint s advertises.
+func VerifFingerprint(s *Server) string { return s.l.Fingerprint }
